@@ -15,7 +15,8 @@
 (* normalisation rule; CLs are the lists built from them.                  *)
 (* EDGE lines carry the outcome the STATEMENT prescribes (res/to) and the  *)
 (* outcome of the code as long as the open finding X17-blank-comment-line  *)
-(* stands (kres/kto).                                                      *)
+(* stands (k), the other acceptable empty comment line (a) and the variant *)
+(* in which a kept comment lives on in a new element object (c).           *)
 (* Negative controls (constant Neg, see FieldComment.tla): StoreBroken ->  *)
 (* LinesWF, ElemStays -> Ownership, MoveLeavesComment -> MovesWhole,       *)
 (* ErrDropsComment -> ErrAtomic, KeepCopies -> ModeLaw.                    *)
@@ -60,11 +61,11 @@ NoCall == [op |-> "", p |-> 0, n |-> 0, key |-> Key(0, "C", NoIdx), m |-> Mode("
 
 Kb == IF Neg = "StoreBroken" THEN "K" ELSE "S"
 Diff(o, x) == IF x = o THEN [same |-> TRUE] ELSE [same |-> FALSE, e |-> x.e, w |-> x.w]
-Step3(c, o, ao, ko) ==
+Step4(c, o, ao, ko, co) ==
    /\ fcn < MaxOps
    /\ fcw' = o.w /\ fcres' = o.e /\ fcn' = fcn + 1 /\ fclast' = c
-   /\ IF Emit THEN PrintT(<<"EDGE", ToJson([from |-> fcw, call |-> c, res |-> o.e, to |-> o.w, a |-> Diff(o, ao), k |-> Diff(o, ko), file |-> FileParts(o.w)])>>) ELSE TRUE
-Step(c, o, ko) == Step3(c, o, o, ko)
+   /\ IF Emit THEN PrintT(<<"EDGE", ToJson([from |-> fcw, call |-> c, res |-> o.e, to |-> o.w, a |-> Diff(o, ao), k |-> Diff(o, ko), c |-> Diff(o, co), file |-> FileParts(o.w)])>>) ELSE TRUE
+Step(c, o, ko) == Step4(c, o, o, ko, o)
 
 Modes(w, orig) ==
    {Mode("default", <<>>, 0), Mode("keep", <<>>, 0), Mode("drop", <<>>, 0), Mode("bad", <<>>, 0),
@@ -83,8 +84,9 @@ ASet == \E p \in EditParas(fcw) : \E n \in Names :
                     orig == IF tgt = 0 THEN NoC ELSE fs[tgt].c
                 IN /\ Len(fs) < 3 \/ tgt # 0
                    /\ \E m \in Modes(fcw, orig) :
-                        Step3(Call("set", p, n, key, m, 0, ""),
-                              SetOut(fcw, p, key, fcn + 1, m, Kb), SetOut(fcw, p, key, fcn + 1, m, "A"), SetOut(fcw, p, key, fcn + 1, m, "K"))
+                        Step4(Call("set", p, n, key, m, 0, ""),
+                              SetOut(fcw, p, key, fcn + 1, m, Kb), SetOut(fcw, p, key, fcn + 1, m, "A"), SetOut(fcw, p, key, fcn + 1, m, "K"),
+                              SetOut(fcw, p, key, fcn + 1, m, "C"))
 ACmt == \E p \in DOMAIN fcw.ps : \E j \in DOMAIN fcw.ps[p] :
           LET c == fcw.ps[p][j].c IN
           \/ /\ ~HasC(c) \/ c.h # 0 \/ fcw.nh <= MaxH
